@@ -63,6 +63,25 @@ func c09State(w *wctx, p *position.Position, r *refchess.Pos) {
 	}
 	if want {
 		run.Count("in_check_states", 1)
+	} else {
+		// the cached answer through a null move and back (as the search makes it: only when not in check). Done before
+		// any move is made from this state, so that the undo-stack slot still holds what an earlier sibling left there.
+		msg, pan := vl.Guard(func() {
+			p.DoNullMove()
+			n := r.Clone()
+			n.White, n.EP = !r.White, -1
+			if got, wantN := p.HasCheck(), n.InCheck(n.White); got != wantN {
+				run.Violate("hascheck:after-null-move", fmt.Sprintf("after a null move HasCheck()=%v but the king is attacked=%v", got, wantN), w.replayOf(r, nil))
+			}
+			p.UndoNullMove()
+			if got := p.HasCheck(); got != want {
+				run.Violate("hascheck:after-null-move-undone", fmt.Sprintf("after DoNullMove/UndoNullMove HasCheck()=%v but the king is attacked=%v", got, want), w.replayOf(r, nil))
+			}
+		})
+		if pan {
+			run.Violate("nullmove-panic", "DoNullMove/UndoNullMove panicked: "+msg, w.replayOf(r, nil))
+		}
+		run.Count("null_move_excursions", 1)
 	}
 	// attack queries for every square and colour
 	pawnSq, capWhite, hasCap, epOK := epConvention(r)
